@@ -17,7 +17,7 @@ def qtables : Biogo.Fastq.QTables :=
 /-- FNV-1a fingerprints of the printed source of the modelled functions (informational) -/
 def fingerprints : List (String × String) := [
   ("fasta.Reader.Read", "656f63847fa0d6c9"),
-  ("fasta.Reader.header", "92e74f85005413f2"),
+  ("fasta.Reader.header", "6f7d4732f88d4c39"),
   ("fasta.Writer.Write", "c51a40113ba068d2"),
   ("fastq.Reader.Read", "2a396da093ecc0e6"),
   ("fastq.Reader.readHeader", "06b412e417b89a16"),
@@ -31,7 +31,7 @@ def fingerprints : List (String × String) := [
     single-valued type-assertion expressions (everything in it that can panic at run time) -/
 def panicSites : List (String × List String) := [
   ("fasta.Reader.Read", ["line[len(r.SeqPrefix):]"]),
-  ("fasta.Reader.header", ["r.t.Clone().(seqio.SequenceAppender)", "line[len(r.IDPrefix):]", "line[len(r.IDPrefix):fieldMark]", "line[fieldMark+1:]"]),
+  ("fasta.Reader.header", ["r.t.Clone().(seqio.SequenceAppender)", "line[len(r.IDPrefix):]", "line[:fieldMark]", "line[fieldMark+1:]"]),
   ("fasta.Writer.Write", ["i % w.Width"]),
   ("fastq.Reader.Read", ["label[1:]", "line[1:]", "label[1:]", "line[1:]", "seqBuff[i]", "seqBuff[:i]", "line[:0]", "seqBuff[i]", "line[i]"]),
   ("fastq.Reader.readHeader", ["r.t.Clone().(seqio.SequenceAppender)", "line[1:]", "line[1:fieldMark]", "line[fieldMark+1:]"]),
